@@ -333,6 +333,9 @@ def run(ctx):
     # 0 is an ordinary id / value / address: nothing int-valued may be tested by truthiness (nqsa/truth.py)
     from .. import truth
     truth.check(ctx, "C08.Z", ['netqasm.sdk.transpile'])
+    # a value remembered for later calls is keyed by every argument it depends on (nqsa/memo.py)
+    from .. import memo
+    memo.check(ctx, "C08.K", ['netqasm.sdk.transpile'])
 
 
 def check_scratch(ctx, nvt, rw):
